@@ -56,9 +56,9 @@ CHECKS = {
    technique="TLA+ model of the retry state machine (TLC exhaustive) + replay against the real transport and a scripted HTTP server"),
 
  "C07": dict(cat="model_checking", design="5 C07",
-   text="Delegation.tla (tree mode) holds one repository per state: every delegation tree over up to 3 delegated roles, every set of names each edge matches and each role lists. It transcribes Targets::find_target and Targets::validate and states the property's own definition of the authorized entry (first in pre-order whose whole chain matches); TLC checks FindMeetsSpec and LoadedMeansAuthorized on all 262 k repositories. Each enumerated repository (quick: all with 2 delegated roles) is built with real metadata - match sets realised as literals, dir/*, '?' patterns and hash prefixes, names partly needing resolution - loaded, and every name read; the digest requested under consistent snapshots shows which role's entry is enforced.",
+   text="Delegation.tla (tree mode) holds one repository per state: every delegation tree over up to 3 delegated roles, every set of names each edge matches and each role lists. It transcribes Targets::find_target and Targets::validate and states the property's own definition of the authorized entry (first in pre-order whose whole chain matches); TLC checks FindMeetsSpec and LoadedMeansAuthorized on all 262 k repositories. Each enumerated repository (quick: all with 2 delegated roles) is built with real metadata - match sets realised as literals, dir/*, '?' patterns and hash prefixes, names partly needing resolution - loaded, and every name read; the digest requested under consistent snapshots shows which role's entry is enforced. DelegCli.tla models the tuftool delegation workflow (create-role, add-role, update-delegated-targets, add-key, remove-key, remove, update --role) as a protocol between the owner and role holders over staging directories (TLC: PublishedLoads, IncorporatedMeansAuthorized, PathsHold, RoleVersionsMonotone, 450 k states at 8 commands); behaviours of three plan families are run through the tuftool binary, the published repository is parsed and its signatures re-verified independently and loaded with a fresh client after every command.",
    note="Trusted: TLC; glob semantics abstracted to match sets (patterns never put '/' under a wildcard); depth 3, 2-3 names; fan-out 3 with 6 names is not reached.",
-   technique="TLA+ model of lookup and validation (TLC exhaustive) + replay of every enumerated repository through load/read_target"),
+   technique="TLA+ model of lookup and validation (TLC exhaustive) + replay of every enumerated repository through load/read_target + DelegCli.tla protocol model with replay through the tuftool delegation commands"),
 
  "C11": dict(cat="model_checking", design="5 C11",
    text="CJson.tla defines the canonical form of an object (members ordered by the code points of the NFC-normalised keys, only quotation mark and backslash escaped) and models the formatter's buffered, ordered member map; TLC checks FormatterIsCanonical for every insertion order of every key set (size <= 3, keys of length <= 2 over an 8-symbol alphabet with controls, space, '!', '\"', '\\', a decomposed accent). Every enumerated object is serialised by the real CanonicalFormatter in exactly that insertion order (custom Serialize) and through serde_json::Value, and compared byte for byte; a random driver (values to depth 4, full ASCII incl. controls, multi-byte characters, two member orders each, floats must be refused) is compared with the harness's independent canonicaliser.",
@@ -80,17 +80,17 @@ CHECKS = {
    technique="TLA+ model as oracle (TLC) + exhaustive single-point mutation of real signed documents through the real client"),
 
  "C10": dict(cat="model_checking", design="5 C10",
-   text="Editor.tla models the public editing operations (add/remove target, version, delegate_role from targets or from a delegated role, sign_targets_editor, change_delegated_targets, sign) with exactly the success condition of each call, and the client's verification of the result; TLC checks SignedLoads for all programs of up to 5 operations. Every program of up to 4 operations that ends in sign - generated with the threshold check switched off, so that programs the editor must refuse are tried too - is executed with the real RepositoryEditor, written, published (copy and symlink), loaded back through an HTTP-like transport and through file:// URLs, every target downloaded, the client's view compared with the model's, and snapshot/timestamp compared with the written files (version, length, SHA-256). EditorX.tla enumerates the cross-party cases (threshold, versions, signer sets incl. foreign keys and double signatures) for update_delegated_targets.",
+   text="Editor.tla models the public editing operations (add/remove target, version, delegate_role from targets or from a delegated role, sign_targets_editor, change_delegated_targets, sign) with exactly the success condition of each call, and the client's verification of the result; TLC checks SignedLoads for all programs of up to 5 operations. Every program of up to 4 operations that ends in sign - generated with the threshold check switched off, so that programs the editor must refuse are tried too - is executed with the real RepositoryEditor, written, published (copy and symlink), loaded back through an HTTP-like transport and through file:// URLs, every target downloaded, the client's view compared with the model's, and snapshot/timestamp compared with the written files (version, length, SHA-256). EditorX.tla enumerates the cross-party cases (threshold, versions, signer sets incl. foreign keys and double signatures) for update_delegated_targets. Lifecycle.tla adds the command level: tuftool create / update / transfer-metadata / clone / download and a client with a persistent datastore as actions over the published, cloned and downloaded directories (TLC: UpdateKeeps, CloneFaithful, ClientMonotone, MonotonePublisherServes, ...); simulated behaviours spread over the command kinds are run through the tuftool binary built from the working tree, the directories are inspected independently after every command and the property predicate is evaluated on what was observed. DelegCli.tla models the tuftool delegation workflow (create-role, add-role, update-delegated-targets, add-key, remove-key, remove, update --role) as a protocol between the owner and role holders over staging directories (TLC: PublishedLoads, IncorporatedMeansAuthorized, PathsHold, RoleVersionsMonotone, 450 k states at 8 commands); behaviours of three plan families are run through the tuftool binary, the published repository is parsed and its signatures re-verified independently and loaded with a fresh client after every command.",
    note="Trusted: TLC, signer-set abstraction. Programs up to 4 operations over 2 targets / 2 delegated roles exhaustively (thorough) - the 25-operation / 60-target scale of the property text is not reached. F14 is a recorded finding.",
-   technique="TLA+ model of the editor API (TLC exhaustive) + replay of every program through the real editor and client"),
+   technique="TLA+ model of the editor API (TLC exhaustive) + replay of every program through the real editor and client + Lifecycle.tla / DelegCli.tla command-level models with replay through the tuftool binary"),
  "C17": dict(cat="model_checking", design="5 C17",
-   text="EditorUpdate.tla enumerates every repository shape (unknown top-level members in targets/snapshot/timestamp, custom data, a delegated role) x 0..2 added targets and states what from_repo + sign must carry over; each case is built by the harness's own writers, passed through RepositoryEditor::from_repo / sign / write, and the written JSON is compared with the input member by member (delegated file identical, its signature re-verified).",
-   note="Oracle-style: the model is a transcription of which members the editor copies; the comparison is on real files. Library path only (tuftool update not exercised).",
-   technique="TLA+ model as oracle (TLC) + replay through from_repo/sign/write with document comparison"),
+   text="EditorUpdate.tla enumerates every repository shape (unknown top-level members in targets/snapshot/timestamp and in delegated roles, custom data, a delegated role, a second-level role) x 0..2 added targets and states what from_repo + sign must carry over; each case is built by the harness's own writers, passed through RepositoryEditor::from_repo / sign / write, and the written JSON is compared with the input member by member (delegated file identical, its signature re-verified). Lifecycle.tla adds the command level: tuftool create / update / transfer-metadata / clone / download and a client with a persistent datastore as actions over the published, cloned and downloaded directories (TLC: UpdateKeeps, CloneFaithful, ClientMonotone, MonotonePublisherServes, ...); simulated behaviours spread over the command kinds are run through the tuftool binary built from the working tree, the directories are inspected independently after every command and the property predicate is evaluated on what was observed.",
+   note="Oracle-style: the model is a transcription of which members the editor copies; the comparison is on real files. The tuftool update command is exercised by the Lifecycle.tla behaviours.",
+   technique="TLA+ model as oracle (TLC) + replay through from_repo/sign/write with document comparison + Lifecycle.tla command-level model with replay through the tuftool binary"),
  "C19": dict(cat="model_checking", design="5 C19",
-   text="Cache.tla enumerates target subsets x root chain x trusted root version x one corrupted source target and states which calls must succeed and which root files must exist; each case runs Repository::cache on a repository with odd role and target names, lists the directory tree (confinement), loads the copy with a client holding the same root (HTTP-like and file://), compares versions, reads back every requested target and checks that a corrupted target is never stored.",
-   note="Oracle-style model; library path only (tuftool clone not exercised). F14 is a recorded finding.",
-   technique="TLA+ model as oracle (TLC) + replay through Repository::cache with directory and copy inspection"),
+   text="Cache.tla enumerates target subsets x root chain x trusted root version x one corrupted source target and states which calls must succeed and which root files must exist; each case runs Repository::cache on a repository with odd role and target names and targets held by first- and second-level delegated roles, lists the directory tree (confinement), loads the copy with a client holding the same root (HTTP-like and file://), compares versions, reads back every requested target and checks that a corrupted target is never stored. Lifecycle.tla adds the command level: tuftool create / update / transfer-metadata / clone / download and a client with a persistent datastore as actions over the published, cloned and downloaded directories (TLC: UpdateKeeps, CloneFaithful, ClientMonotone, MonotonePublisherServes, ...); simulated behaviours spread over the command kinds are run through the tuftool binary built from the working tree, the directories are inspected independently after every command and the property predicate is evaluated on what was observed.",
+   note="Oracle-style model for the library path; tuftool clone is exercised by the Lifecycle.tla behaviours. F14 is a recorded finding.",
+   technique="TLA+ model as oracle (TLC) + replay through Repository::cache with directory and copy inspection + Lifecycle.tla command-level model with replay through the tuftool binary"),
 
  "C20": dict(cat="model_checking", design="5 C20",
    text="RootCli.tla models every `tuftool root` subcommand on the abstract file (version, key table, per-role key ids and thresholds, signatures) with the success condition the code implements, including --cross-sign and --ignore-threshold; TLC checks PlainSignSelfVerifies and EditsClearSigs over all sequences of up to 6-7 commands. Replayed through the tuftool binary built from the working tree: all (a share of the) 2-command sequences, simulated 6-12-command sequences, and the witness sequences TLC produces for the signature-counting variant of sign; after every invocation the harness parses the file itself, recomputes key identifiers, verifies signatures with its own verifier, and checks that a failing command left the file untouched.",
